@@ -92,7 +92,22 @@ ITERS = ["xs.map((x, i) => { MUT; return x; }).length", "(() => { let n = 0; xs.
          "(() => { let i = 1; return xs.copyWithin({valueOf() { MUT; return 1; }} as any, 0, {valueOf() { MUT; return 90; }} as any).length; })()",
          "(() => { let i = 1; return xs.at({valueOf() { MUT; return 7; }} as any); })()", "(() => { let i = 1; return xs.includes(1, {valueOf() { MUT; return 1; }} as any); })()",
          "(() => { let i = 1; return xs.with({valueOf() { MUT; return 1; }} as any, 5).length; })()", "(() => { let i = 1; return xs.lastIndexOf(3, {valueOf() { MUT; return 8; }} as any); })()"]
-HOSTILE = [
+# a callback the native invokes (accessor, toJSON, iterator, trap) WRITES to the very object the native is reading
+READERS = ["JSON.stringify(o)", "JSON.stringify(o, null, 2)", "JSON.stringify([o, o])", "Object.assign({}, o)", "Object.entries(o).length", "Object.values(o).length", "({...o})",
+           "(() => { let n = 0; for (const k in o) { n += String((o as any)[k]).length; } return n; })()", "Object.getOwnPropertyDescriptors(o)", "String(Object.keys(o)) + o.a", "structuredCloneLike(o)"]
+WRITES = ["(this as any).n = 1", "delete (this as any).b", "Object.freeze(this)", "Object.defineProperty(this, 'z', {value: 1, enumerable: true})", "(this as any).b = [(this as any).b]",
+          "Object.setPrototypeOf(this, null)", "for (let i = 0; i < 40; i++) (this as any)['k' + i] = i"]
+SELF_WRITERS = ["(() => { function structuredCloneLike(x: any) { return JSON.parse(JSON.stringify(x)); } const o: any = { get a() { %s; return 1; }, b: 2, c: {d: 3} }; return %s; })()" % (w, r)
+                for r in READERS for w in WRITES] + \
+               ["(() => { const o: any = { get toJSON() { (this as any).x = 1; return undefined; }, y: 1 }; return JSON.stringify(o); })()",
+                "(() => { const o: any = { toJSON() { delete (this as any).y; (this as any).z = 2; return this; }, y: 1 }; return JSON.stringify({o, p: o}); })()",
+                "(() => { const a: any[] = [1, 2, 3]; Object.defineProperty(a, 1, { get() { a.length = 0; a.push(9); return 7; }, enumerable: true, configurable: true }); return JSON.stringify(a) + a.join() + [...a].length; })()",
+                "(() => { const m = new Map([[1, 2]]); let n = 0; m.forEach((v, k, mm) => { if (n++ < 60) { mm.set(k + 1, v); mm.delete(k); } }); return m.size + n; })()",
+                "(() => { const st = new Set([1]); let n = 0; for (const v of st) { if (n++ < 60) { st.add(v + 1); st.delete(v); } } return st.size + n; })()",
+                "(() => { const o: any = { toString() { (this as any).toString = () => 'y'; delete (this as any).valueOf; return 'x'; } }; return `${o}${o}` + (o + '') + [o, o].join(); })()",
+                "(() => { const p: any = new Proxy({a: 1}, { ownKeys(t) { (t as any)['k' + Object.keys(t).length] = 1; return Reflect.ownKeys(t); }, getOwnPropertyDescriptor(t, k) { delete (t as any).a; return Reflect.getOwnPropertyDescriptor(t, k); } }); return JSON.stringify(p) + Object.keys(p).length; })()",
+                "(() => { const o: any = {a: 1, b: 2}; return JSON.stringify(o, function (k, v) { if (k === 'a') { delete (this as any).b; (this as any).c = 3; } return v; }); })()"]
+HOSTILE = SELF_WRITERS + [
     "Array.prototype.map.call({length: N, 0: 1}, (x: any) => x).length", "Array.prototype.forEach.call({length: N, 0: 1}, () => { throw new RangeError('stop'); })", "Array.prototype.slice.call({length: N}, 0, 3).length",
     "Array.prototype.join.call({length: N}, ',').length", "Array.prototype.indexOf.call({length: N}, 1)", "Array.prototype.includes.call({length: N, 0: 5}, 5)", "Array.prototype.fill.call({length: N}, 0, 0, 2).length",
     "Array.prototype.reverse.call({length: N, 0: 1}).length", "Array.prototype.push.call({length: N}, 1)", "Array.prototype.pop.call({length: N})", "Array.prototype.shift.call({length: N, 0: 1})", "Array.prototype.concat.call([], {length: N, [Symbol.isConcatSpreadable]: true}).length",
